@@ -379,11 +379,13 @@ def check_c13(pid, tier, build, props):
             problems.append("harness error: %r" % (meta,))
             continue
         nq += len(res)
-        if any(jt for jt, _ in item):
+        plain = item[1] if (item and item[0] == "light") else item
+        if any(jt for jt, _ in plain):
             nontrivial.add(item)
         if any(x != 1 for x in res) and len(violations) < 10:
             common.import_repo()
             text, _ = c13.export_item(item)
+            item = plain
             rows = [r for r in text.splitlines()[2:-1]]
             qrows = [r for r in rows if not r.startswith("20 ")]
             bad = [(C13_TAGS.get(int(q.split()[0]), "?"), q) for q, x in zip(qrows, res) if x != 1]
